@@ -476,14 +476,16 @@ def fmt(v):
     return "(" + ", ".join(str(x) if not isinstance(x, float) else f"{x:.9g}" for x in v) + ")"
 
 
-def run_cfg(cfg, mode="exact", pids=("C01", "C03", "C06", "C12"), orchestration=None, mon=None, model=None, dates=None):
+def run_cfg(cfg, mode="exact", pids=("C01", "C03", "C06", "C12"), orchestration=None, mon=None, model=None, dates=None, limit=None):
     """build and run; returns (monitor, model, exception text or None, captured stdout)"""
     buf = io.StringIO()
     err = None
     mon = mon or Monitor(mode, pids, cfg=cfg)
     mon.too_slow = False
     try:
-        with contextlib.redirect_stdout(buf), C.time_limit(300):
+        # (exact rationals can explode: a model that takes longer than this is dropped from the sample and counted; the quick
+        # tier gives up sooner)
+        with contextlib.redirect_stdout(buf), C.time_limit(limit or (300 if C.tier() == "thorough" else 100)):
             if model is None:
                 model = NG.build(cfg, mode, orchestration)
             model._verif_pre = mon.on_pre
